@@ -245,15 +245,44 @@ def _gen_run(rng, run_idx, thorough, observed=False):
         prefixes = [None if (j % 2 == 0) else "coll%d" % j for j in range(ncoll)]
         if rng.random() < 0.5:
             prefixes = prefixes[::-1]
-    return {"files": files, "scores": scores, "levels": levels,
+    return {"files": files, "scores": scores, "levels": levels, "nkey": nkey,
             "chunk": max(1, rng.choice([1, 2, 3, 5, nmax - 1, nmax, nmax + 1, 1000] + [d for d in range(2, nmax + 1) if nmax % d == 0])),
             "dedup": rng.random() < 0.6, "rollup": rng.random() < 0.7, "decoys": rng.random() < 0.6,
             "prefixes": prefixes, "fmt": rng.choice(["tsv", "tsv", "tsv", "parquet"]), "workers": 1,
             "end": "complete"}
 
 
+def _gen_prot_run(rng, run_idx):
+    """one collection whose peptides come from a generated FASTA (protein level on)"""
+    from . import c15
+    fasta, tp, dp = c15.gen_fasta(rng, "mirror", wide=True)
+    P = c15._proteins({"fasta": fasta, "fasta_args": dict(c15.FASTA_ARGS)})
+    allp = list(P.peptide_map.items()) + list(P.shared_peptides.items())
+    tpeps = sorted(p for p, g in allp if not g.startswith("decoy_"))
+    dpeps = sorted(p for p, g in allp if g.startswith("decoy_"))
+    n = rng.randint(12, 40)
+    f = brewlib.gen_file(rng, n, 2, file_idx=run_idx * 10, mult=(1, 2))
+    f["data"]["Peptide"] = ["K." + rng.choice(tpeps if t else dpeps) + ".A" for t in f["targets"]]
+    return {"files": [f], "scores": [[float(v) for v in rng.sample(range(-n, 3 * n), n)]], "levels": [], "nkey": 2,
+            "chunk": max(1, rng.choice([1, 2, 3, 5, n - 1, n, n + 1, 1000])), "dedup": rng.random() < 0.6, "rollup": True,
+            "decoys": True, "prefixes": [None], "fmt": "tsv", "workers": 1, "end": "complete", "fasta": fasta}
+
+
 def gen(ctx):
     cases = []
+    # ---- protein level on: the picked-protein step reads the peptide-level file and writes a protein-level file
+    rng = ctx.sub("proteins")
+    for k in range(30 if ctx.thorough else 8):
+        obs = _gen_prot_run(rng, 8)
+        runs = []
+        if k % 2:
+            r = _gen_prot_run(rng, 1)
+            r["end"] = [rng.choice(["kill", "fail"]), rng.randint(5, 60)]
+            runs.append(r)
+        junk = [{"kind": rng.choice(["level", "own-result", "chunk"]), "index": rng.randint(0, 50), "pfx": None, "seed": rng.randint(0, 10 ** 6)}
+                for _ in range(rng.choice([1, 2, 3]))]
+        cases.append({"fn": "dirty", "runs": runs, "observed": obs, "junk": junk,
+                      "tags": ["dirty", "proteins", "earlier=%d" % len(runs), "junk=%d" % len(junk)]})
     rng = ctx.sub("dirty")
     n_dirty = 140 if ctx.thorough else 26
     for k in range(n_dirty):
@@ -299,7 +328,7 @@ def gen(ctx):
         while len(obs["files"]) < len(layout):
             extra = _gen_run(rng, 8, False, observed=True)
             j = len(obs["files"])
-            f = brewlib.gen_file(rng, rng.randint(3, 10), 2, file_idx=80 + j, levels=obs["levels"])
+            f = brewlib.gen_file(rng, rng.randint(3, 10), obs["nkey"], file_idx=80 + j, levels=obs["levels"])
             obs["files"].append(f)
             obs["scores"].append([float(v) for v in rng.sample(range(-20, 60), len(f["targets"]))])
         obs["files"] = obs["files"][: len(layout)]
@@ -368,13 +397,17 @@ def _exec_run(spec, indir, out, tap):
         paths = [brewlib.write_file(f, indir, "in%d" % i, spec["fmt"]) for i, f in enumerate(spec["files"])]
         with brewlib.Chunking(confidence=spec["chunk"]):
             dss = mokapot.read_pin(paths, max_workers=1)
+            P = None
+            if spec.get("fasta"):
+                from . import c15
+                P = c15._proteins({"fasta": spec["fasta"], "fasta_args": dict(c15.FASTA_ARGS)})
             try:
                 with tap:
                     mokapot.assign_confidence(
                         dss, max_workers=spec.get("workers", 1),
                         scores=[np.array(s, dtype=float) for s in spec["scores"]],
                         eval_fdr=0.5, dest_dir=Path(out), prefixes=list(spec["prefixes"]), decoys=spec["decoys"],
-                        deduplication=spec["dedup"], do_rollup=spec["rollup"])
+                        deduplication=spec["dedup"], do_rollup=spec["rollup"], proteins=P, rng=7)
                 return "complete"
             except KillSim:
                 return "killed"
@@ -398,6 +431,8 @@ def _level_names(spec):
     names = ["psms"]
     if spec["rollup"]:
         names += ["peptides"] + [lv.lower() + "s" for lv in spec["levels"]]
+    if spec.get("fasta"):
+        names.append("proteins")
     return names
 
 
@@ -502,7 +537,7 @@ def _parse_table(path):
             df = pd.read_csv(path, sep="\t", float_precision="round_trip")
     except Exception:
         return None
-    idc = next((c for c in ("PSMId", "SpecId") if c in df.columns), None)
+    idc = next((c for c in ("PSMId", "SpecId", "mokapot protein group") if c in df.columns), None)
     if idc is None:
         return None
     out = []
@@ -521,15 +556,21 @@ def _snapshot(out, obs):
     return snap
 
 
-def _cfg_tok(obs, reg, glob=False):
+def _cfg_tok(obs, reg, glob=False, prot_tables=None):
     level_cols = ["Peptide"] + obs["levels"] if obs["rollup"] else []
     colls = []
     for j, f in enumerate(obs["files"]):
         rows = [reg.row_tok(f["data"]["SpecId"][r], obs["scores"][j][r], level_cols) for r in range(len(f["targets"]))]
-        colls.append("%s %d %s" % (lib.z(_pfx_code(obs["prefixes"][j])), len(rows), " ".join(rows)))
-    return "%s %s %s %s %s %s %s %d %s" % (
-        lib.b(obs["fmt"] == "parquet"), lib.z(obs["chunk"]), lib.b(obs["dedup"]), lib.z(len(_level_names(obs))),
-        lib.b(obs["decoys"]), lib.b(False), lib.b(glob), len(colls), " ".join(colls))
+        prot = (prot_tables or {}).get(j)
+        if prot is None:
+            ptok = "0"
+        else:
+            ids, prow = prot
+            ptok = "1 %s %d %s" % (lib.lst(ids), len(prow), " ".join(prow))
+        colls.append("%s %d %s %s" % (lib.z(_pfx_code(obs["prefixes"][j])), len(rows), " ".join(rows), ptok))
+    return "%s %s %s %s %s %s %s %s %d %s" % (
+        lib.b(obs["fmt"] == "parquet"), lib.z(obs["chunk"]), lib.b(obs["dedup"]), lib.z(len(_level_names(obs)) - (1 if obs.get("fasta") else 0)),
+        lib.b(obs["decoys"]), lib.b(False), lib.b(glob), lib.b(bool(prot_tables)), len(colls), " ".join(colls))
 
 
 def _fs_tok(snap, obs, reg, other_ids):
@@ -589,8 +630,30 @@ def _trace_struct(trace, obs):
     return out
 
 
-def _model_trace(obs, reg):
-    line = lib.run_driver(["c09.trace " + _cfg_tok(obs, reg)])[0]
+def _prot_tables(obs, reg, clean_out):
+    """oracle of the picked-protein step, taken from the run in the clean directory: the PSM ids the peptide-level file
+    must hold (computed with the C03 model) and the protein-level rows (names registered as row ids)"""
+    level_cols = ["Peptide"] + obs["levels"]
+    f = obs["files"][0]
+    rows = [reg.row_tok(f["data"]["SpecId"][r], obs["scores"][0][r], level_cols) for r in range(len(f["targets"]))]
+    nl = len(_level_names(obs)) - 1
+    line = lib.run_driver(["c03.levels %s %s %s %s %d %s" % (lib.z(obs["chunk"]), lib.b(obs["dedup"]), lib.b(obs["dedup"]), lib.z(nl), len(rows), " ".join(rows))])[0]
+    t = Toks(line)
+    lv = t.lst(lambda: t.lst(t.z))
+    prow = []
+    for fn, flag in (("targets.proteins", True), ("decoys.proteins", False)):
+        rws = _parse_table(Path(clean_out) / fn)
+        if rws is None:
+            return None
+        for name, sc, qv in rws:
+            reg.rows.setdefault(name, {"code": 5000000 + len(reg.rows), "spec": 0, "keys": {}, "target": flag})
+            prow.append((sc, name))
+    prow.sort(key=lambda x: -x[0])
+    return {0: (lv[1], [reg.row_tok(name, sc, []) for sc, name in prow])}
+
+
+def _model_trace(obs, reg, prot_tables=None):
+    line = lib.run_driver(["c09.trace " + _cfg_tok(obs, reg, prot_tables=prot_tables)])[0]
     t = Toks(line)
     return [[k, list(n)] for k, n in t.lst(lambda: (t.z(), _read_name(t, {})))]
 
@@ -695,7 +758,14 @@ def _run_dirty(c):
         clean_listing = sorted(os.listdir(out2))
         # model
         other_ids = {}
-        line = lib.run_driver(["c09.run %s 0 %s" % (_cfg_tok(obs, reg), _fs_tok(before, obs, reg, other_ids))])[0]
+        prot_tables = _prot_tables(obs, reg, out2) if obs.get("fasta") and end2 == "complete" else None
+        if obs.get("fasta") and prot_tables is None:
+            # the protein step itself refused the table (sanity checks of picked_protein): nothing to model
+            return (("ok", {"end": "not-modelled"}),
+                    ("ok", {"end": end, "clean_end": end2, "dirty_bytes": dirty_bytes, "clean_bytes": clean_bytes,
+                            "before": sorted(before.keys()), "after_files": sorted(after.keys())}))
+        # re-snapshot with the protein names known to the registry
+        line = lib.run_driver(["c09.run %s 0 %s" % (_cfg_tok(obs, reg, prot_tables=prot_tables), _fs_tok(before, obs, reg, other_ids))])[0]
         mfs = _decode_fs(line, other_ids, reg)
         impl = {"end": end, "earlier_ends": ends, "before": sorted(before.keys()),
                 "listing": sorted([list(sn) for sn, _ in after.values()]),
@@ -713,7 +783,7 @@ def _run_dirty(c):
                 by_fn[tuple(sn)] = _canon_model(sn, rows)
             model = {"end": "complete", "listing": sorted([list(sn) for sn in mfs.keys()]),
                      "results": {fn: by_fn.get(tuple(sn)) for fn, (sn, rows) in after.items() if sn[0] == "result"},
-                     "trace": _model_trace(obs, reg) if obs.get("workers", 1) == 1 else None}
+                     "trace": _model_trace(obs, reg, prot_tables) if obs.get("workers", 1) == 1 else None}
         return ("ok", model), ("ok", impl)
     finally:
         shutil.rmtree(d, ignore_errors=True)
@@ -951,6 +1021,9 @@ def same(c, m, i):
     J = lib.jsonable
     fn = c["fn"]
     if fn == "dirty":
+        if m["end"] == "not-modelled":
+            # the run refuses its input in a clean directory too: only the property itself applies
+            return i["end"] == i["clean_end"] and i["dirty_bytes"] == i["clean_bytes"]
         if i["end"] != "complete" or m["end"] != "complete":
             return False
         if J(m["listing"]) != J(i["listing"]):
